@@ -4,104 +4,219 @@ C08 — deadlock clause and the append critical section.
 
 `Pearl.Lts` (see `Pearl/Model/Lts.lean`): `N` writers into a full active blob, the observer channel of
 capacity `C` (`OBSERVER_CHANNEL_SIZE_LIMIT = 1024` in `src/storage/observer.rs`), the worker, and the storage
-lock `Inner::safe` (tokio `RwLock`, write-preferring).
+lock `Inner::safe` (tokio `RwLock`, write-preferring).  The client program has a protocol parameter:
 
-* `deadlock_witness`      : with `N = C + 2` writers inside the shared section there is a schedule into a state
-                            that is not final and has no successor (for `C = 1024`: 1026 writers);
-* `no_deadlock_bounded`   : with `N ≤ C + 1` writers every reachable non-final state has a successor;
-  so `C + 2` is the exact threshold of the model;
+* `Proto.sendUnderLock`    — /repo up to eb0e048: `send` on the bounded channel while the shared lock is held;
+* `Proto.sendAfterRelease` — /repo since fe5e781 (`CURRENT`): decide under the lock, `drop(safe)`, then `send`.
+
+The code as it is (`sendAfterRelease`):
+* `no_deadlock`            : for EVERY number of writers, every reachable non-final state has a successor;
+* `all_clients_finish`     : from every reachable state some finite schedule reaches a final state;
+* `every_run_is_finite`    : every step decreases `Lts.measure`, so no schedule from `init N` is longer than `16·N`
+                             (holds for both protocols);
+* `old_deadlock_unreachable` : the deadlocked state of the old protocol is not reachable any more.
+
+The pinned code (`sendUnderLock`), kept as the record of the defect:
+* `deadlock_witness_before_fix`    : with `N = C + 2` writers inside the shared section there is a schedule into a
+                                     state that is not final and has no successor (`C = 1024`: 1026 writers);
+* `no_deadlock_bounded_before_fix` : with `N ≤ C + 1` writers every reachable non-final state has a successor;
+  so `C + 2` was the exact threshold.
+
+Independent of the protocol:
 * `rw_exclusion`          : the worker holds the lock exclusively only while nobody holds it shared;
 * `ranges_disjoint`, `ranges_disjoint_interleaved`, `written_bytes_intact`, `append_cs_atomic`
-                          : the per-blob append section (`Pearl.Append`).
+                          : the per-blob append section (`Pearl.Append`, which does not mention `Proto`).
 -/
 namespace Pearl
 namespace C08
 
 open Pearl.Lts Pearl.Append
 
-/-! ## deadlock -/
+/-- the protocol of the shipped code -/
+abbrev CURRENT : Proto := .sendAfterRelease
 
-/-- C08/D1: for every channel capacity `C`, `C + 2` clients that are all inside the shared section of the
-    storage lock can be scheduled into a deadlock.  The schedule is `witnessSched C` (built by recursion on
-    `C` through `List.range'`), the deadlocked state is `witnessState C`:
-    one client blocked in `send` on a full channel while holding the shared lock, the worker queued for the
-    exclusive lock with one message in its hands, everybody else gone. -/
-theorem deadlock_witness :
+/-! ## the code as it is: no deadlock, for any number of writers -/
+
+/-- C08/D1: under `sendAfterRelease`, for every channel capacity `C > 0` and EVERY number `N` of clients, every
+    reachable state that is not final has a successor.
+
+    Invariants: `Lts.Inv` (the shared holders are exactly the clients at `append`/`send`/`release`/`relSend`;
+    the writer side of the lock mirrors the worker's program counter) and "no client is at `send`"
+    (`noSend_reach`: nobody waits on the channel with the lock in hand).  So whoever holds the lock shared can
+    always move, the readers drain, the worker is granted the lock; senders wait outside the lock and the
+    worker in `recv` empties the channel for them. -/
+theorem no_deadlock (C N : Nat) (hC : 0 < C) (s : LState)
+    (hreach : Reach CURRENT C (init N) s) (hnf : ¬ final s) : ∃ s', Step CURRENT C s s' :=
+  progress_free (inv_reach (inv_init N) hreach) (noSend_reach (noSend_init N) hreach) hC hnf
+
+/-- the same from the state in which all clients already hold the lock shared (the starting point of the old
+    deadlock) -/
+theorem no_deadlock_inside (C N : Nat) (hC : 0 < C) (s : LState)
+    (hreach : Reach CURRENT C (initInside N) s) (hnf : ¬ final s) : ∃ s', Step CURRENT C s s' :=
+  progress_free (inv_reach (inv_initInside N) hreach) (noSend_reach (noSend_initInside N) hreach) hC hnf
+
+theorem no_stuck (C N : Nat) (hC : 0 < C) (s : LState) (hreach : Reach CURRENT C (init N) s) :
+    ¬ Stuck CURRENT C s := by
+  rintro ⟨hnf, hno⟩
+  obtain ⟨s', hs⟩ := no_deadlock C N hC s hreach hnf
+  exact hno s' hs
+
+/-- C08/D2 (termination measure, both protocols): every step decreases `Lts.measure`; hence a schedule that
+    is executable from `s` has at most `measure s` steps -/
+theorem every_step_decreases (proto : Proto) (C : Nat) (s s' : LState) (h : Step proto C s s') :
+    Lts.measure s' < Lts.measure s := measure_step h
+
+theorem measure_init (N : Nat) : Lts.measure (init N) = 16 * N := by
+  simp [Lts.measure, init, CPc.weight, WPc.weight, Nat.mul_comm]
+
+theorem every_run_is_finite (proto : Proto) (C N : Nat) (sched : List Label) (s' : LState)
+    (h : runSched proto C sched (init N) = some s') : sched.length ≤ 16 * N := by
+  have := runSched_length_le sched (init N) s' h
+  rw [measure_init] at this
+  omega
+
+/-- C08/D3: under `sendAfterRelease` every reachable state can be run to a final state: all clients done, the
+    channel empty, the worker back in `recv` -/
+theorem all_clients_finish (C N : Nat) (hC : 0 < C) (s : LState) (hreach : Reach CURRENT C (init N) s) :
+    ∃ (sched : List Label) (s' : LState), runSched CURRENT C sched s = some s' ∧ final s' :=
+  finish_of_progress (fun t => Reach CURRENT C (init N) t)
+    (fun _ _ ht hs => .step ht hs)
+    (fun t ht hnf => no_deadlock C N hC t ht hnf)
+    (Lts.measure s) s (Nat.le_refl _) hreach
+
+theorem all_clients_finish_inside (C N : Nat) (hC : 0 < C) (s : LState)
+    (hreach : Reach CURRENT C (initInside N) s) :
+    ∃ (sched : List Label) (s' : LState), runSched CURRENT C sched s = some s' ∧ final s' :=
+  finish_of_progress (fun t => Reach CURRENT C (initInside N) t)
+    (fun _ _ ht hs => .step ht hs)
+    (fun t ht hnf => no_deadlock_inside C N hC t ht hnf)
+    (Lts.measure s) s (Nat.le_refl _) hreach
+
+/-- … and a run that cannot be continued has reached a final state: no execution ends anywhere else -/
+theorem maximal_run_is_final (C N : Nat) (hC : 0 < C) (sched : List Label) (s : LState)
+    (hrun : runSched CURRENT C sched (init N) = some s) (hmax : ∀ s', ¬ Step CURRENT C s s') : final s := by
+  have hreach := runSched_reach CURRENT C sched (init N) (init N) s .refl hrun
+  by_cases hf : final s
+  · exact hf
+  · obtain ⟨s', hs⟩ := no_deadlock C N hC s hreach hf
+    exact absurd hs (hmax s')
+
+/-- the deadlocked state of the old protocol cannot be reached any more -/
+theorem old_deadlock_unreachable (C N : Nat) : ¬ Reach CURRENT C (initInside N) (witnessState C) := by
+  intro h
+  have := noSend_reach (noSend_initInside N) h
+  apply this
+  cases C <;> simp [witnessState]
+
+-- non-vacuity: the workload of the old deadlock (`C = 2`, 4 writers into a full blob, everybody inside the
+-- shared section) now runs to the end; the first prefix is the state in which the old protocol was stuck
+-- in spirit: channel full, worker queued for the lock — but the blocked senders hold no lock
+example : runSched CURRENT 2
+      [.cAppend 0, .cAppend 1, .cAppend 2, .cAppend 3, .cRelease 0, .cRelease 1, .cRelease 2, .cSend 0, .cSend 1,
+       .wRecv, .cSend 2] (initInside 4) =
+    some { clients := [.done, .done, .done, .relSend], chan := 2, wpc := .waitWrite, readers := 1,
+           writer := .waiting, full := true } := by decide
+example : runSched CURRENT 2
+      [.cAppend 0, .cAppend 1, .cAppend 2, .cAppend 3, .cRelease 0, .cRelease 1, .cRelease 2, .cSend 0, .cSend 1,
+       .wRecv, .cSend 2, .cRelease 3, .wGrant, .wSwitch, .wRecv, .cSend 3, .wRecv, .wRecv] (initInside 4) =
+    some { clients := [.done, .done, .done, .done], chan := 0, wpc := .recv, readers := 0,
+           writer := .idle, full := false } := by decide
+example : final { clients := [.done, .done, .done, .done], chan := 0, wpc := .recv, readers := 0,
+                  writer := .idle, full := false } := by decide
+-- a reachable non-final state exists (so `no_deadlock` says something), here with far more writers than slots
+example : ∃ s, Reach CURRENT 1 (init 5) s ∧ ¬ final s := ⟨init 5, .refl, by decide⟩
+-- the real channel, more writers than in the replayed hang (1100) and in the repaired run (3000)
+example (s : LState) (h : Reach CURRENT 1024 (init 3000) s) : ¬ Stuck CURRENT 1024 s :=
+  no_stuck 1024 3000 (by decide) s h
+example : Lts.measure (initInside 4) = 48 ∧ Lts.measure (init 4) = 64 := by decide
+
+/-! ## the pinned code (`sendUnderLock`): the deadlock, kept as the record of the defect -/
+
+/-- for every channel capacity `C`, `C + 2` clients that are all inside the shared section of the storage lock
+    can be scheduled into a deadlock.  The schedule is `witnessSched C` (built by recursion on `C` through
+    `List.range'`), the deadlocked state is `witnessState C`: one client blocked in `send` on a full channel
+    while holding the shared lock, the worker queued for the exclusive lock with one message in its hands,
+    everybody else gone. -/
+theorem deadlock_witness_before_fix :
     ∀ C : Nat, ∃ (sched : List Label) (s : LState),
-      runSched C sched (initInside (C + 2)) = some s ∧ Stuck C s :=
-  fun C => ⟨witnessSched C, witnessState C, witnessSched_runs C, witnessState_stuck C⟩
+      runSched .sendUnderLock C sched (initInside (C + 2)) = some s ∧ Stuck .sendUnderLock C s :=
+  fun C => ⟨witnessSched C, witnessState C, witnessSched_runs C, witnessState_stuck .sendUnderLock C⟩
 
 /-- the same, from the state in which no client has asked for the lock yet -/
-theorem deadlock_witness_from_start :
+theorem deadlock_witness_from_start_before_fix :
     ∀ C : Nat, ∃ (sched : List Label) (s : LState),
-      runSched C sched (init (C + 2)) = some s ∧ Stuck C s := by
+      runSched .sendUnderLock C sched (init (C + 2)) = some s ∧ Stuck .sendUnderLock C s := by
   intro C
-  refine ⟨(List.range' 0 (C + 2)).map .cAcquire ++ witnessSched C, witnessState C, ?_, witnessState_stuck C⟩
+  refine ⟨(List.range' 0 (C + 2)).map .cAcquire ++ witnessSched C, witnessState C, ?_,
+    witnessState_stuck .sendUnderLock C⟩
   rw [runSched_append, init_to_inside]
   exact witnessSched_runs C
 
 /-- in terms of reachability -/
-theorem deadlock_reachable (C : Nat) : ∃ s, Reach C (initInside (C + 2)) s ∧ Stuck C s :=
-  ⟨witnessState C, runSched_reach C _ _ _ _ .refl (witnessSched_runs C), witnessState_stuck C⟩
+theorem deadlock_reachable_before_fix (C : Nat) :
+    ∃ s, Reach .sendUnderLock C (initInside (C + 2)) s ∧ Stuck .sendUnderLock C s :=
+  ⟨witnessState C, runSched_reach .sendUnderLock C _ _ _ _ .refl (witnessSched_runs C),
+    witnessState_stuck .sendUnderLock C⟩
 
 -- non-vacuity: the schedule for `C = 2` (4 clients), step by step, and its last state
 example : witnessSched 2 =
     [.cAppend 0, .cAppend 1, .cAppend 2, .cAppend 3, .cSend 0, .cSend 1, .wRecv, .cSend 2,
      .cRelease 0, .cRelease 1, .cRelease 2] := by decide
-example : runSched 2 (witnessSched 2) (initInside 4) =
+example : runSched .sendUnderLock 2 (witnessSched 2) (initInside 4) =
     some { clients := [.done, .done, .done, .send], chan := 2, wpc := .waitWrite, readers := 1,
            writer := .waiting, full := true } := by decide
 -- the stuck state is not final, and e.g. the blocked client really cannot send, the worker cannot be granted
 example : ¬ final (witnessState 2) := by decide
-example : fire 2 (.cSend 3) (witnessState 2) = none ∧ fire 2 .wGrant (witnessState 2) = none := by decide
+example : fire .sendUnderLock 2 (.cSend 3) (witnessState 2) = none ∧
+    fire .sendUnderLock 2 .wGrant (witnessState 2) = none := by decide
 -- the capacity of the real channel
-example : ∃ sched s, runSched 1024 sched (initInside 1026) = some s ∧ Stuck 1024 s := deadlock_witness 1024
+example : ∃ sched s, runSched .sendUnderLock 1024 sched (initInside 1026) = some s ∧ Stuck .sendUnderLock 1024 s :=
+  deadlock_witness_before_fix 1024
 
-/-- C08/D2: with at most `C + 1` clients (all inside the shared section) there is no deadlock: every reachable
-    state that is not final has a successor.  (`0 < C`: tokio's `channel(0)` panics; a zero-capacity channel
-    in this model never transmits.)
+/-- with at most `C + 1` clients (all inside the shared section) the old protocol had no deadlock: every
+    reachable state that is not final has a successor.  (`0 < C`: tokio's `channel(0)` panics; a zero-capacity
+    channel in this model never transmits.)
 
-    Invariant (`Lts.Inv`): the shared holders are exactly the clients at `append`/`send`/`release`, and
-    `chan + (1 if the worker has a message in its hands) ≤ #release + #done` — a message exists only if its
-    sender is past `send`.  A blocked sender therefore sees `chan + busy ≤ N - 1 ≤ C`: either the channel has
-    room, or the worker is in `recv` with a non-empty channel. -/
-theorem no_deadlock_bounded (C N : Nat) (hC : 0 < C) (hN : N ≤ C + 1) (s : LState)
-    (hreach : Reach C (initInside N) s) (hnf : ¬ final s) : ∃ s', Step C s s' :=
+    Invariant (`Lts.Inv`): `chan + (1 if the worker has a message in its hands) ≤ #release + #done` — a message
+    exists only if its sender is past `send`.  A blocked sender therefore sees `chan + busy ≤ N - 1 ≤ C`: either
+    the channel has room, or the worker is in `recv` with a non-empty channel. -/
+theorem no_deadlock_bounded_before_fix (C N : Nat) (hC : 0 < C) (hN : N ≤ C + 1) (s : LState)
+    (hreach : Reach .sendUnderLock C (initInside N) s) (hnf : ¬ final s) : ∃ s', Step .sendUnderLock C s s' :=
   progress (inv_reach (inv_initInside N) hreach) hC hN hnf
 
-theorem no_stuck_bounded (C N : Nat) (hC : 0 < C) (hN : N ≤ C + 1) (s : LState)
-    (hreach : Reach C (initInside N) s) : ¬ Stuck C s := by
+theorem no_stuck_bounded_before_fix (C N : Nat) (hC : 0 < C) (hN : N ≤ C + 1) (s : LState)
+    (hreach : Reach .sendUnderLock C (initInside N) s) : ¬ Stuck .sendUnderLock C s := by
   rintro ⟨hnf, hno⟩
-  obtain ⟨s', hs⟩ := no_deadlock_bounded C N hC hN s hreach hnf
+  obtain ⟨s', hs⟩ := no_deadlock_bounded_before_fix C N hC hN s hreach hnf
   exact hno s' hs
 
 /-- the same when the clients have yet to take the shared lock (late readers queue behind the writer) -/
-theorem no_deadlock_bounded_from_start (C N : Nat) (hC : 0 < C) (hN : N ≤ C + 1) (s : LState)
-    (hreach : Reach C (init N) s) (hnf : ¬ final s) : ∃ s', Step C s s' :=
+theorem no_deadlock_bounded_from_start_before_fix (C N : Nat) (hC : 0 < C) (hN : N ≤ C + 1) (s : LState)
+    (hreach : Reach .sendUnderLock C (init N) s) (hnf : ¬ final s) : ∃ s', Step .sendUnderLock C s s' :=
   progress (inv_reach (inv_init N) hreach) hC hN hnf
 
--- non-vacuity: `C = 2`, `N = 3`; the prefix of the witness schedule that fits is executable, its end is a
--- reachable non-final state, and the theorem's successor exists (here: the worker is granted the lock
--- after the last client has sent and left)
-example : runSched 2 [.cAppend 0, .cAppend 1, .cAppend 2, .cSend 0, .cSend 1, .wRecv, .cSend 2,
+-- non-vacuity: `C = 2`, `N = 3` runs to the end under the old protocol
+example : runSched .sendUnderLock 2 [.cAppend 0, .cAppend 1, .cAppend 2, .cSend 0, .cSend 1, .wRecv, .cSend 2,
       .cRelease 0, .cRelease 1, .cRelease 2, .wGrant, .wSwitch, .wRecv, .wRecv] (initInside 3) =
     some { clients := [.done, .done, .done], chan := 0, wpc := .recv, readers := 0, writer := .idle,
            full := false } := by decide
-example : final { clients := [.done, .done, .done], chan := 0, wpc := .recv, readers := 0, writer := .idle,
-                  full := false } := by decide
-example : ∃ s, Reach 2 (initInside 3) s ∧ ¬ final s :=
+example : ∃ s, Reach .sendUnderLock 2 (initInside 3) s ∧ ¬ final s :=
   ⟨initInside 3, .refl, by decide⟩
--- the threshold is exact: `N = C + 1` is safe, `N = C + 2` is not
+-- the threshold was exact: `N = C + 1` safe, `N = C + 2` not
 example (C : Nat) (hC : 0 < C) :
-    (∀ s, Reach C (initInside (C + 1)) s → ¬ Stuck C s) ∧ (∃ s, Reach C (initInside (C + 2)) s ∧ Stuck C s) :=
-  ⟨fun s h => no_stuck_bounded C (C + 1) hC (Nat.le_refl _) s h, deadlock_reachable C⟩
+    (∀ s, Reach .sendUnderLock C (initInside (C + 1)) s → ¬ Stuck .sendUnderLock C s) ∧
+    (∃ s, Reach .sendUnderLock C (initInside (C + 2)) s ∧ Stuck .sendUnderLock C s) :=
+  ⟨fun s h => no_stuck_bounded_before_fix C (C + 1) hC (Nat.le_refl _) s h, deadlock_reachable_before_fix C⟩
 
-/-- the lock is a lock: in every reachable state (any number of clients) the worker is inside its exclusive
-    section only while no client is inside the shared one, and the readers count is exactly the number of
-    clients between `acquire` and `release` -/
-theorem rw_exclusion (C N : Nat) (s : LState) (hreach : Reach C (init N) s) :
+/-! ## independent of the protocol -/
+
+/-- the lock is a lock: in every reachable state (either protocol, any number of clients) the worker is inside
+    its exclusive section only while no client is inside the shared one, and the readers count is exactly the
+    number of clients between `acquire` and `release` -/
+theorem rw_exclusion (proto : Proto) (C N : Nat) (s : LState) (hreach : Reach proto C (init N) s) :
     (s.writer = .holding → s.readers = 0) ∧
-    s.readers = s.clients.count .append + s.clients.count .send + s.clients.count .release := by
+    s.readers = s.clients.count .append + s.clients.count .send + s.clients.count .release +
+      s.clients.count .relSend := by
   have hi := inv_reach (inv_init N) hreach
   refine ⟨?_, hi.readers⟩
   intro hw
@@ -109,9 +224,14 @@ theorem rw_exclusion (C N : Nat) (s : LState) (hreach : Reach C (init N) s) :
   have := hi.writer
   cases hwp : s.wpc <;> simp [hwp, writerOf, hw] at this ⊢
 
--- non-vacuity: a reachable state in which the worker does hold the lock
-example : (runSched 1 [.cAcquire 0, .cAppend 0, .cSend 0, .wRecv, .cRelease 0, .wGrant] (init 1)).map (·.writer)
-    = some .holding := by decide
+-- non-vacuity: a reachable state in which the worker does hold the lock, under each protocol
+example : (runSched .sendUnderLock 1 [.cAcquire 0, .cAppend 0, .cSend 0, .wRecv, .cRelease 0, .wGrant] (init 1)).map
+    (·.writer) = some .holding := by decide
+example : (runSched .sendAfterRelease 1 [.cAcquire 0, .cAppend 0, .cRelease 0, .cSend 0, .wRecv, .wGrant] (init 1)).map
+    (·.writer) = some .holding := by decide
+-- writer preference: while the worker waits, a late client cannot take the lock shared
+example : (runSched .sendAfterRelease 1 [.cAcquire 0, .cAppend 0, .cRelease 0, .cSend 0, .cAcquire 1, .wRecv]
+      (init 3)).bind (fire .sendAfterRelease 1 (.cAcquire 2)) = none := by decide
 
 /-! ## the append critical section -/
 
